@@ -1,15 +1,11 @@
-import Bmc.Driver.Dec
+import Bmc.Driver.DecCore
 import Bmc.Proto.Session
 namespace Bmc.Driver
 open Bmc Bmc.Wire Bmc.Crypto Bmc.Proto
 
-def realOpsFull : Ops := { hmac := Hash.hmac, encBlock := AES.encBlock, decBlock := AES.decBlock }
-
-def chunk16 : Bytes → List Bytes
-  | [] => []
-  | bs => if bs.length < 16 then [] else bs.take 16 :: chunk16 (bs.drop 16)
-termination_by bs => bs.length
-decreasing_by simp; omega
+def chunk16 : Nat → Bytes → List Bytes
+  | 0, _ => []
+  | n + 1, bs => if bs.length < 16 then [] else bs.take 16 :: chunk16 n (bs.drop 16)
 
 def parseScript (s : String) : Option (List Outcome) :=
   if s == "-" then some [] else
@@ -20,25 +16,26 @@ def parseScript (s : String) : Option (List Outcome) :=
 
 def showRes : Res → String
   | .ok c p => s!"ok {c.toNat} {hexOf p}"
-  | .transportErr => "transport"
-  | .ctxExpired => "ctx"
-  | .crashed => "crashed"
+  | .transportErr => "err"
+  | .serializeErr => "err"
+  | .ctxExpired => "err"
+  | .crashed => "panic"
 
-/-- `send <variant> <integ> <k1> <k2> <localID> <remoteID> <inbound> <fn> <cmd> <body> <lun> <req> <ivs> <script>` -/
+def showSent (sent : List Bytes) : String := if sent.isEmpty then "-" else ",".intercalate (sent.map hexOf)
+
+/-- `send <auth> <integ> <k1> <k2> <localID> <remoteID> <inbound> <fn> <cmd> <body> <ent> <lun> <req|!> <entropy> <script>` -/
 def evalSend (args : List String) : String :=
   match args with
-  | [variant, integ, k1, k2, lid, rid, inb, fn, cmd, body, lun, req, ivs, script] =>
-    match integ.toNat?, parseHex k1, parseHex k2, lid.toNat?, rid.toNat?, inb.toNat?, fn.toNat?, cmd.toNat?,
-          body.toNat?, lun.toNat?, parseHex req, parseHex ivs, parseScript script with
-    | some integ, some k1, some k2, some lid, some rid, some inb, some fn, some cmd, some body, some lun,
-      some req, some ivs, some script =>
-      let fixed := variant == "1"
+  | [_auth, integ, k1, k2, lid, rid, inb, fn, cmd, body, ent, lun, req, ivs, script] =>
+    match [integ, lid, rid, inb, fn, cmd, body, ent, lun].mapM String.toNat?, parseHex k1, parseHex k2,
+          (if req == "!" then some [] else parseHex req), parseHex ivs, parseScript script with
+    | some [integ, lid, rid, inb, fn, cmd, body, ent, lun], some k1, some k2, some reqB, some ivs, some script =>
       let s : Sess := { inbound := inb, localID := lid, remoteID := rid, integ := integ, k1 := k1, k2 := k2 }
-      let c : Cmd := { fn := UInt8.ofNat fn, cmd := UInt8.ofNat cmd, body := UInt8.ofNat body, lun := UInt8.ofNat lun, req := req }
-      let (s', sent, r) := send realOpsFull (if fixed then 8 else 7) fixed fixed s c (chunk16 ivs) script
-      let sentS := if sent.isEmpty then "-" else ",".intercalate (sent.map hexOf)
-      s!"sent={sentS} res={showRes r} inbound={s'.inbound}"
-    | _, _, _, _, _, _, _, _, _, _, _, _, _ => "bad-op"
+      let c : Cmd := { fn := UInt8.ofNat fn, cmd := UInt8.ofNat cmd, body := UInt8.ofNat body, ent := ent
+                       lun := UInt8.ofNat lun, req := reqB, reqFails := req == "!" }
+      let (s', sent, r) := send realOps s c (chunk16 (ivs.length / 16) ivs) script
+      s!"sent={showSent sent} res={showRes r} inbound={s'.inbound}"
+    | _, _, _, _, _, _ => "bad-op"
   | _ => "bad-op"
 
 end Bmc.Driver
